@@ -11,7 +11,7 @@
                                  edge i is re-pointed to the slice [idx_l, idx_h) of `buffered`
      frontend _group_edges    : edges are bucketed by (source class var, target class var, delayed?) ; networkx
                                  enumerates the out-edges of a node by successor, then by key
-     non-vectorized           : one buffer per graph edge (`_out{i}`); two edges between the same variable pair on a
+     non-vectorized           : one buffer per delayed edge (`_out{i}`); two UNDELAYED edges between one variable pair on a
                                  buffered source do not compile (IndexError at the first call)
      _solve_euler / _solve_heun: one / two rhs calls per step (the buffer advances at every call).
    Circuits of the correspondence run: source nodes x' = k + .. + k, target nodes x' = r_in + .. + r_in (class c has c+1
@@ -101,8 +101,8 @@ Definition tkey (c : circuit) (e : edge) : nat := nkey c (etgt e).
 (* model switches for the proposed repairs (fixes/proposed_fix_C09_D15.diff, proposed_fix_C09_D34.diff): false = the code
    as it is.  D15: an edge without delay entry counts as 1 step (repaired: 0, i.e. it reads slot 0 = the current value);
    D34: `delay: None` written out becomes the NUMBER 1 = one time unit (repaired: like a missing entry). *)
-Definition fixed_D15 : bool := false.
-Definition fixed_D34 : bool := false.
+Definition fixed_D15 : bool := true.
+Definition fixed_D34 : bool := true.
 Definition nokey_steps : nat := if fixed_D15 then 0 else 1.
 Definition rsteps (dt : Qc) (e : edge) : nat :=
   match ed e with
@@ -171,14 +171,19 @@ Definition rows0 (c : circuit) : list (list Qc) :=
 Fixpoint iruns (c : circuit) (n : nat) (st : list Qc * list (list Qc)) : list (list Qc) :=
   match n with O => [] | S n' => fst st :: iruns c n' (istep c st) end.
 
-(* non-vectorized: two edges between the same pair of variables on a buffered source -> IndexError at the first call *)
+(* non-vectorized (every user edge is a graph edge of its own since D68; an edge of 0 steps is left on the unbuffered source
+   variable since D70, with its source_idx cleared): two such unbuffered edges from a buffered source to one target variable are
+   merged by _collect_from_edges into one two-column projection of a scalar -> IndexError at the first call.  (Before D59/D68 every
+   pair of edges between one variable pair on a buffered source crashed: D18.) *)
 Fixpoint has_dup_pair (l : list edge) : bool :=
   match l with
   | [] => false
   | e :: l' => existsb (fun e' => Nat.eqb (esrc e) (esrc e') && Nat.eqb (etgt e) (etgt e')) l' || has_dup_pair l'
   end.
 Definition crashes (c : circuit) : bool :=
-  negb (cvec c) && existsb (fun e => gadd c (skey c e) && has_dup_pair (group c (skey c e))) (cedges c).
+  negb (cvec c) &&
+  existsb (fun e => gadd c (skey c e) &&
+                    has_dup_pair (filter (fun e' => Nat.eqb (rsteps (cdt c) e') 0) (group c (skey c e)))) (cedges c).
 
 Inductive res := Ok (rows : list (list Qc)) | ErrIndex.
 Definition impl_run (c : circuit) (n : nat) : res :=
@@ -216,7 +221,7 @@ Definition g_euler (c : circuit) : bool := negb (cheun c).
    in the code as it is: it counts as 1 step; always true once fixed_D15 and fixed_D34 hold) *)
 Definition g_no_undelayed_sibling (c : circuit) : bool :=
   forallb (fun e => is_delayed e || negb (gadd c (skey c e)) || Nat.eqb (rsteps (cdt c) e) 0) (cedges c).
-(* D18 and its both-delayed variant (loud) *)
+(* D18 (loud), what is left of it: two undelayed edges between one variable pair on a buffered source, vectorize=False *)
 Definition g_no_parallel_buffered (c : circuit) : bool := negb (crashes c).
 (* `delay: None` written out *)
 Definition g_no_explicit_none (c : circuit) : bool :=
